@@ -77,6 +77,8 @@ def check_cases(cases: list[dict], rep: Report, known: dict) -> None:
         returned: list[tuple] = []          # (expression, snapshot) handed to the caller
         points: dict[str, tuple] = {}
         probed: dict[int, str] = {}
+        ld_made: dict[int, object] = {}
+        ld_snaps: dict[int, tuple] = {}
         rep.case((tuple(c["pool"]), str(c["ops"])), len(c["ops"]) >= 3)
         rep.count("origin", c["origin"])
         done = []
@@ -123,6 +125,15 @@ def check_cases(cases: list[dict], rep: Report, known: dict) -> None:
             for r, snap in returned:
                 if snapshot_expr(r, p0) != snap:
                     rep.violation(f"an expression returned earlier changed after operation {k} ({op['op']}): {snap[1][:200]}", info)
+                    ok = False
+            # located differentials the caller kept: what they report is fixed when they are handed out
+            for kk, L in list(hist.lds.items()):
+                now = call(lambda: (repr(L), str(L), tuple(L.component(v) for v in names + ["w"])))
+                if ld_made.get(kk) is not L:
+                    ld_made[kk], ld_snaps[kk] = L, now
+                elif now != ld_snaps[kk]:
+                    rep.violation(f"a LocatedDifferential handed out earlier reports something else after operation {k} ({op['op']}): "
+                                  f"{ld_snaps[kk]!r} -> {now!r}"[:600], info)
                     ok = False
             for j, P in hist.pobjs.items():
                 i, x, kind = hist.pobj_src[j]
